@@ -75,8 +75,8 @@ class Range:
             return None
         start, end = m.groups()
         if not start:
-            if not end:
-                # "bytes=-" names no range at all
+            if not end or not int(end):
+                # "bytes=-" names no range at all, "bytes=-0" selects no bytes
                 return None
             return cls(-int(end), None)
         start = int(start)
